@@ -275,7 +275,8 @@ def r1h(F):
     for hook in ("map", "filter", "reduce"):
         fn = F.fn(RT + hook)
         o = Origins(fn)
-        calls = [(b, t) for b, t in fn.calls() if callee(t) == VM + "fcall_impl"]
+        fw = set(util.forwarders(F, VM + "fcall_impl"))
+        calls = [(b, t) for b, t in fn.calls() if callee(t) == VM + "fcall_impl" or callee(t) in fw]
         need(len(calls) == 3, "%s does not have three callback call sites" % hook)
         stack_pushes = [(b, t) for b, t in fn.calls() if callee(t) == "alloc::vec::Vec::push" and
                         "alloc::vec::Vec<(alloc::rc::Rc<ucglib::build::opcode::Value>" in fn.local_ty(op_local(t["args"][0]) or 0)]
@@ -310,7 +311,7 @@ def r1h(F):
                             built_str = True
                             res = results_in(o.at(prim["ops"][0], cdefs[0][0]))
                 from_pops = _which_pop(labs, pops)
-                from_call = VM + "fcall_impl" in res
+                from_call = VM + "fcall_impl" in res or bool(set(res) & fw)
                 if built_str:
                     seq.append("char" if any(c.endswith("::to_string") for c in res) else "name")
                 elif hook == "reduce" and (2 in from_pops or from_call):
